@@ -5,7 +5,9 @@ switch on every path (MUX: two bootstraps without key switch, one key switch) an
 R2 input-independence as a data-dependence fact: inside the bootstrap the input sample is used only as the argument
 of the modulus switch to 2N (its variance field and raw coefficients flow nowhere else) and no mutable static is read;
 R3 noise budget: the closed-form noise model evaluated on the statically extracted parameter constants and
-structural facts gives sigma <= stated bound, |mean| <= bound/4, MUX sigma <= 1.35 x bound, 3/64 >= 8 sigma.
+structural facts gives sigma <= stated bound, |mean| <= bound/4, MUX sigma <= 1.35 x bound, 3/64 >= 8 sigma;
+R4 the key-switching-key noise is one Gaussian per row recentred by the floating-point mean of exactly those draws
+(C07's rule for lweCreateKeySwitchKey), which the mean clause relies on.
 Not decided: that the measured noise follows the formulas (independence heuristics, FFT error) and the statement about
 whole netlists as such.
 """
@@ -184,6 +186,10 @@ def run(chk):
         chk.require(not hits, "R2", "the bootstrap closure reads no mutable process-wide state (no history)", where="libtfhe",
                     ok="%d functions in the closure, %d mutable statics in the library, none referenced" % (len(reach), len(muts)),
                     bad="; ".join(hits[:3]), variant=vn)
+        # ---------------- R4 the key-switching-key noise is recentred (the mean bound relies on it: without it every gate output
+        # under one key carries the same offset  -(number of selected rows) x (average row noise))
+        from rules import c04, c07
+        c07.check_ks_noise(c04._Sub(chk, "R4"), v, rule="R4")
         # ---------------- R3 noise budget
         kf = ks_facts(v)
         df = decomp_facts(v)
